@@ -63,9 +63,24 @@ type Route struct {
 	Body   *Node   `json:"body"`
 }
 
+// Command: `! name p0: int! --flag: str = "d" { body }` - run through ExecuteCommand with an argument map.
+type Command struct {
+	Name   string  `json:"name"`
+	Params []Param `json:"params"`
+	Flags  []bool  `json:"flags,omitempty"` // Flags[i]: parameter i is written --name
+	Body   *Node   `json:"body"`
+}
+
+// CmdCall is one invocation of Cmds[Cmd]: the arguments given (by parameter name), already of the declared type.
+type CmdCall struct {
+	Cmd  int                    `json:"cmd"`
+	Args map[string]interface{} `json:"args,omitempty"`
+}
+
 type Program struct {
-	Funcs  []Func  `json:"funcs,omitempty"`
-	Routes []Route `json:"routes"`
+	Funcs  []Func    `json:"funcs,omitempty"`
+	Routes []Route   `json:"routes"`
+	Cmds   []Command `json:"cmds,omitempty"`
 }
 
 // Request is one binding of path/query/body inputs for Routes[Route].
